@@ -24,7 +24,7 @@ package geom
 //@ spec sumLenP(mp []Polygon, k int) int decreases k = k <= 0 ? 0 : sumLenP(mp, k-1) + sumLen(mp[k-1], len(mp[k-1]))
 
 //@ func NewBounds
-//@   prop C04
+//@   prop C04, C01
 //@   mode fp
 //@   ensures [empty] fresh(result) && biteq(*result, emptyB())
 //@   modifies nothing
@@ -43,7 +43,7 @@ package geom
 //@   modifies nothing
 
 //@ func (b *Bounds) Bounds
-//@   prop C04
+//@   prop C04, C01
 //@   mode fp
 //@   ensures [self] result == b
 //@   modifies nothing
@@ -63,7 +63,7 @@ package geom
 //@ pred overlapsB(a Bounds, b Bounds) = !emptyBox(a) && !emptyBox(b) && a.Min.X <= b.Max.X && a.Min.Y <= b.Max.Y && a.Max.X >= b.Min.X && a.Max.Y >= b.Min.Y
 
 //@ func (b *Bounds) Overlaps
-//@   prop C04
+//@   prop C04, C01
 //@   mode xreal
 //@   requires [nonnil] b != nil && b2 != nil
 //@   ensures [sound] noNaNBox(*b) && noNaNBox(*b2) && result ==> inBox(*b, goMax(b.Min.X, b2.Min.X), goMax(b.Min.Y, b2.Min.Y)) && inBox(*b2, goMax(b.Min.X, b2.Min.X), goMax(b.Min.Y, b2.Min.Y))
@@ -73,7 +73,7 @@ package geom
 //@   modifies nothing
 
 //@ func (b *Bounds) extendPoint
-//@   prop C04
+//@   prop C04, C01
 //@   mode fp
 //@   requires [nonnil] b != nil
 //@   ensures [min] biteq(b.Min.X, goMin(old(b.Min.X), point.X)) && biteq(b.Min.Y, goMin(old(b.Min.Y), point.Y))
@@ -82,7 +82,7 @@ package geom
 //@   modifies *b
 
 //@ func (b *Bounds) extendPoints
-//@   prop C04
+//@   prop C04, C01
 //@   mode fp
 //@   requires [nonnil] b != nil
 //@   ensures [fold] biteq(*b, foldPts(old(*b), points, len(points)))
@@ -91,7 +91,7 @@ package geom
 //@     invariant [fold] 0 <= #1 && #1 <= len(points) && biteq(*b, foldPts(old(*b), points, #1))
 
 //@ func (b *Bounds) extendPointss
-//@   prop C04
+//@   prop C04, C01
 //@   mode fp
 //@   requires [nonnil] b != nil
 //@   ensures [fold] biteq(*b, foldPaths(old(*b), pointss, len(pointss)))
@@ -132,7 +132,7 @@ package geom
 //@   ensures [len] result == len(l)
 
 //@ func (p Polygon) Bounds
-//@   prop C04
+//@   prop C04, C01
 //@   mode fp
 //@   ensures [env] fresh(result) && biteq(*result, foldPaths(emptyB(), p, len(p)))
 //@   modifies nothing
@@ -150,7 +150,7 @@ package geom
 //@     invariant [sum] 0 <= #1 && #1 <= len(ml) && i == sumLenL(ml, #1)
 
 //@ func (b *Bounds) Extend
-//@   prop C04
+//@   prop C04, C01
 //@   mode xreal
 //@   requires [nonnil] b != nil
 //@   ensures [nil_noop] b2 == nil ==> biteq(*b, old(*b))
@@ -1281,7 +1281,7 @@ package geom
 //@     invariant [fold] 0 <= #1 && #1 <= len(ml) && fresh(b) && biteq(*b, foldLines(emptyB(), ml, #1))
 
 //@ func (mp MultiPolygon) Bounds
-//@   prop C04
+//@   prop C04, C01
 //@   mode xreal
 //@   ensures [env] fresh(result) && biteq(*result, foldPolys(emptyB(), mp, len(mp)))
 //@   modifies nothing
